@@ -244,4 +244,20 @@ PROPS = {
         "assumptions": ["dynamic oracle: silence means no race on the explored executions only",
                         "races whose both accesses are owned by third-party code (pluginsdk schema caches, the SDK's global schema objects) are not attributed to the engine"],
     },
+    "C20": {
+        "test": "TestC20", "binary": "plain", "level": "exploration", "needs_main_binary": True,
+        "rule": "generated workflow trees written to a scratch directory: nesting depth 1-3 of foreach references, sub-workflows in "
+                "sub-directories, a second loop sharing the leaf file, four declared outputs whose ids are a generated permutation of success / "
+                "error / other / failure and of which the scripted outcome of a decider step (success / error output / alt / crash) selects one, "
+                "optionally an explicit outputSchema with generated error flags. Each tree is run through six configurations (Parse+Run with "
+                "an absolute context, RunWorkflow, relative context with the working directory elsewhere or inside the context, in-memory file "
+                "cache with and without the sub-workflows preloaded), through direct Executor.Prepare+Execute of the same texts, and through "
+                "cmd/arcaflow's runWorkflow (worker built from package main). oracle: all give the same output id / data / failure, equal to the "
+                "reference; outputIsError == declared flag (explicit schema) or id == \"error\" (inferred); exit code 0 / 2 / 3 as documented. "
+                "non-trivial = depth >= 2, an output named error, or an explicit schema",
+        "quick": {"cases": 240, "shards": 12, "shrinktime": "30s"},
+        "thorough": {"cases": 4000, "shards": 16, "shrinktime": "120s", "timeout_s": 3000},
+        "assumptions": ["engine.DefaultDeployerRegistry is reassigned to the scripted deployer (the variable is exported for that purpose)",
+                        "config loading from a file (config.Load) is not varied"],
+    },
 }
